@@ -8,7 +8,7 @@ FUEL = 200000
 CLOSED_MARK = 4294967296
 HUGE = 2 ** 64 - 1
 PRIOSETS = [[HUGE, 2, 1], [2 ** 63, 5], [1], [2, 1], [3, 2, 1], [5, 1], [7, 5, 3, 1], [70, 20, 10], [4, 3], [1000, 2, 1], [6, 5, 4, 3, 2, 1],
-            [2, 1, 0], list(range(12, 0, -1))]      # priority 0 is a legal value (Rate gives it nothing: rejected by v2 New); twelve inputs
+            [2, 1, 0], list(range(12, 0, -1)), list(range(70, 0, -1))]      # priority 0 is a legal value (Rate gives it nothing: rejected by v2 New); twelve inputs; seventy inputs (more than a machine word has bits)
 
 
 def ref_shares(ps, kind, H):
@@ -41,13 +41,17 @@ def gen_prio2_scenario(rng, tier, style=None, fault=False):
         ps = [100, 2, 1]
     if max(ps) >= 2 ** 63:
         kind = 0     # Rate's float64 arithmetic and the uint sum of priorities are outside their domain for such values
+    if len(ps) > 20:
+        kind = 0     # seventy inputs: Rate would need more than a thousand handlers
     hmin = min_handlers(ps, kind) or 1
     H = rng.choice([hmin, hmin, hmin + 1, hmin + rng.randrange(0, 6), 2 * hmin, rng.randrange(hmin, hmin + 30)])
-    if rng.random() < 0.05:
+    if rng.random() < 0.05 and len(ps) <= 20:
         H = rng.randrange(100, 400)       # many handlers: capacity and feedback limit H/10 above the number of inputs
     if rng.random() < 0.04:
         H = max(hmin - 1, 0)      # rejected by the constructor
     style = style or rng.choice(["mixed", "mixed", "saturated", "sparse", "single", "unbuffered", "closing"])
+    if len(ps) > 20 and style in ("saturated", "unbuffered"):
+        style = rng.choice(["sparse", "closing", "closing"])     # seventy inputs: keep the script short
     allbuf = style != "unbuffered" and rng.random() < 0.8
     cfg = [(p, True if allbuf else rng.random() < 0.5) for p in ps]
     if style == "unbuffered":
@@ -70,6 +74,23 @@ def gen_prio2_scenario(rng, tier, style=None, fault=False):
         for _ in range(H + 3):
             ops.append((3, 0, True))
         nops = 0
+    if len(ps) > 64 and not fault and rng.random() < 0.5:
+        # more inputs than a machine word has bits: the highest ones are closed (and seen closed) first, the lowest stay open and
+        # get their items afterwards
+        low = sorted(ps)[:rng.choice([1, 3, 6])]
+        for p in sorted(ps, reverse=True):
+            if p not in low:
+                ops.append((2, p, False))
+                open_.discard(p)
+        ops.append((3, 0, True))
+        for p in low:
+            for _ in range(rng.choice([1, 2])):
+                ops.append((1, p, True))
+                nput += 1
+        for _ in range(nput + 1):
+            ops.append((3, 0, True))
+            ops.append((4, 0, True))
+        nops = rng.choice([0, 5])
     if style == "saturated":
         for p in ps:
             for _ in range(H + 2):
@@ -378,7 +399,7 @@ def enc_prio1(kind, H, ocap, cfg, ops, fixed=1, prefill=()):
     return [8, kind, H, FUEL, ocap, fixed, len(pc)] + pc + [len(os_)] + os_
 
 
-def gen_prio1_scenario(rng, tier, style=None, fault=False, stop=None):
+def gen_prio1_scenario(rng, tier, style=None, fault=False, stop=None, few_handlers=False):
     """stop: None | 'stop' | 'cancel' -- injected at a random position (C16)"""
     pool = [1, 2, 3, 4, 5, 7, 10, 20, 70]
     kind = rng.randrange(2)
@@ -451,6 +472,10 @@ def gen_prio1_scenario(rng, tier, style=None, fault=False, stop=None):
     from .props.c18 import ref_nonfatal
     good = [h for h in [1, 2, 3, 4, 6, 8, 12, 20, 40, 80, 200] if not union or ref_nonfatal(sorted(union), kind, h)]
     H = rng.choice(good[:4]) if good else 200
+    if few_handlers:
+        # fewer handlers than the configuration needs (some share is zero): delivery is not guaranteed there (known finding), the
+        # capacity bound and the agreement with the model are
+        H = rng.choice([1, 2, 2, 3])
     ocap = rng.choice([1, 2, 4, max(H // 2, 1)])
     if fault:
         ops.insert(rng.randrange(0, len(ops) + 1), (rng.choice([5, 5, 7]), rng.choice([1, 2, -1, H]), 0, True))
@@ -856,6 +881,13 @@ def d4_graceful_witness():
     return Scenario(enc, "known-finding-witness", meta, nontrivial=True, version="v1")
 
 
+def prio1_few_handlers_generate():
+    def generate(rng, tier):
+        return [gen_prio1_scenario(rng, tier, style=rng.choice(["plain", "addremove", "addremove"]), few_handlers=True)
+                for _ in range(120 if tier == "quick" else 1500)]
+    return generate
+
+
 def prio1_generate_with_witness(witness, fault_share=0.0, stop_share=0.0, styles=None):
     gen = prio1_generate(fault_share, stop_share, styles)
 
@@ -926,7 +958,7 @@ def monitor_prio1_progress(sc, ir):
 
 # --------------------------------------------------------------------------- simplified disciplines (family 9)
 def gen_simple2_scenario(rng, tier):
-    ps = list(rng.choice([x for x in PRIOSETS if max(x) < 2 ** 63]))
+    ps = list(rng.choice([x for x in PRIOSETS if max(x) < 2 ** 63 and len(x) <= 20]))
     kind = rng.randrange(2)
     if ps == [1000, 2, 1] and kind == 1:
         ps = [100, 2, 1]
